@@ -514,6 +514,8 @@ def design_runs(chk, gen, thorough):
     consts = ("CONSTANTS\n  Live = {\"f\", \"g\"}\n  Tmp = {\"t1\", \"t2\", \"t3\"}\n  NW = %d\n  MaxUpd = %d\n"
               "  Classes = {\"plain\", \"newline\"}\n  Fields = {\"x\", \"y\"}\n  FaultOps = {\"open\", \"write\", \"close\", \"rename\"}\n"
               "  MaxFaults = %d\n  CrashOn = TRUE\n  Emit = FALSE\n") % ((3, 3, 3) if thorough else (2, 2, 2))
+    if thorough:
+        consts = consts.replace('Fields = {"x", "y"}', 'Fields = {"x"}')      # 3 updates x 2 fields: 12M states, nothing new
     c = _cfg(os.path.join(gen, "AtomicFile_mc_%s.cfg" % chk.tier), consts + "SPECIFICATION Spec\n" + inv)
     r = tlc.run_tlc("AtomicFile", c, timeout=800, coverage=True)
     if not r["ok"]:
@@ -924,7 +926,9 @@ def fidelity(chk, ad_cls, fam, scratch, thorough, only=None, todo=None):
                 return False
         return True
     # single assignments first: the key of a failing history names the (field, class) that already fails on its own
-    todo = sorted(todo, key=lambda cf: (len(set((h["fld"], h["set"]) for h in cf[0]["hist"] if not h["keep"])), len(cf[0]["hist"]),
+    def nonplain_count(hist):
+        return len(set((h["fld"], h["set"]) for h in hist if not h["keep"] and h["set"] != "plain"))
+    todo = sorted(todo, key=lambda cf: (nonplain_count(cf[0]["hist"]), len(cf[0]["hist"]),
                                         json.dumps(cf[0]["hist"], sort_keys=True), sorted(cf[1].items())))
     fresh_bad = set()           # (field, class) that is already read back wrongly after being persisted once
     ad = None
